@@ -144,7 +144,7 @@ CHECKS["C03"] = {
     "tests": [T("TestC03", 300, 4000)],
     "level": "exploration",
     "technique": "property-based testing (rapid): generated write lists x hostile author kinds x delivery routes (incl. hidden behind a colluding writer's entry) with a canary proving the route processed the input; invariant: no hostile address in log/Values/heads/view, refused local write changes nothing",
-    "rule": "rapid draws a store type, a write list (explicit subset, wildcard, none => creator only, creator explicit), 1-2 authors with a short honest history, whether the victim already holds it, whether the victim first opened a wildcard sibling database with the same options value, a hostile kind (honest entry by an identity outside the list; the same written for a database of the non-writer's own; writer's id copied onto the attacker's identity; writer's whole identity block copied with the attacker's key and signature; writer's identity block and key field with the attacker's signature; local write call on the non-writer's own replica), a hostile chain length 1-3, a route (manual Sync, topic message, direct payload, ancestor referenced through next, or through refs, by a valid entry signed by a colluding authorised writer) and 0-2 honest writes afterwards. An entry counts as the attacker's when it carries/is signed with the attacker's key. After an honest canary sent by the same route is visible and the replica rests: no hostile address is in the victim's log, Values(), heads or view and order/view match the models; with the wildcard list only the unverifiable kind is asserted. Local write: every write call returns an error and log length, heads, view, cached _localHeads, write events, published messages and the other replica are unchanged. The two forged-author kinds are a recorded OPEN finding: when listed in known_findings.txt they are excluded by construction (counted) and two witness replays must still classify as known. non-trivial = the victim fetched blocks for the hostile input (or the refused write hit a non-empty store); distinct = SHA-1 of the case JSON",
+    "rule": "rapid draws a store type, a write list (explicit subset, wildcard, none => creator only, creator explicit), 1-2 authors with a short honest history, whether the victim already holds it, whether the victim first opened a wildcard sibling database with the same options value, the access controller (the default ipfs one, list recorded in the manifest; one case in four the bundled in-memory 'simple' one, list passed by every opener), a hostile kind (honest entry by an identity outside the list; the same written for a database of the non-writer's own; writer's id copied onto the attacker's identity; writer's whole identity block copied with the attacker's key and signature; writer's identity block and key field with the attacker's signature; local write call on the non-writer's own replica), a hostile chain length 1-3, a route (manual Sync, topic message, direct payload, ancestor referenced through next, or through refs, by a valid entry signed by a colluding authorised writer) and 0-2 honest writes afterwards. An entry counts as the attacker's when it carries/is signed with the attacker's key. After an honest canary sent by the same route is visible and the replica rests: no hostile address is in the victim's log, Values(), heads or view and order/view match the models; with the wildcard list only the unverifiable kind is asserted. Local write: every write call returns an error and log length, heads, view, cached _localHeads, write events, published messages and the other replica are unchanged. The two forged-author kinds are a recorded OPEN finding: when listed in known_findings.txt they are excluded by construction (counted) and two witness replays must still classify as known. non-trivial = the victim fetched blocks for the hostile input (or the refused write hit a non-empty store); distinct = SHA-1 of the case JSON",
     "level_text": "Generated cases; no exhaustiveness claimed.",
     "level_note": "Access controller type ipfs (the default); the simple controller is only reachable through options that bypass the manifest and is not generated. Trusted: the dependency's signature verification.",
     "design_ref": "5/C03",
